@@ -178,8 +178,20 @@ fn run_every_prefix(ctx: &Ctx) -> Report {
         if *r % 4 == 3 {
             let mut hr = Rng::new(seed ^ (*r * 977 + *n as u64));
             for k in 0..hist.len() {
-                if hr.chance(0.2) {
-                    hist[k] = if *bars { Op::NextBar(hostile_bar(&mut hr)) } else { Op::NextF(hostile_scalar(&mut hr)) };
+                if hr.chance(0.25) {
+                    // NaN and the infinities are the states most likely to collide with a sentinel
+                    let special = match hr.below(20) {
+                        0..=9 => Some(f64::NAN),
+                        10..=12 => Some(f64::INFINITY),
+                        13..=14 => Some(f64::NEG_INFINITY),
+                        _ => None,
+                    };
+                    hist[k] = match (special, *bars) {
+                        (Some(v), false) => Op::NextF(v),
+                        (Some(v), true) => Op::NextBar(Bar { o: v, h: v, l: v, c: v, v }),
+                        (None, false) => Op::NextF(hostile_scalar(&mut hr)),
+                        (None, true) => Op::NextBar(hostile_bar(&mut hr)),
+                    };
                 }
             }
             rep.count("prefix.histories_with_nonfinite_inputs");
